@@ -388,7 +388,10 @@ class Runner:
         )
         if first is None:
             st.obj[x], st.out[x], st.jobs[x] = task, out, job
-            w.register_job(x, job)
+            if getattr(st, "mode", "normal") == "normal" or x not in w.jobdir:
+                # (a dry-run / generate-only run schedules nothing; the job directory of x is the one
+                # the normal runs use)
+                w.register_job(x, job)
             w.jobdir_variant.setdefault(getattr(st, "variant", "old"), {})[x] = str(job.path)
             if self.scn.get("cfg", {}).get("c14"):
                 from .c14 import on_submit
@@ -614,8 +617,16 @@ class Runner:
         k, w = self.k, self.w
         exc = None
         try:
-            k.log("xp-enter-call", xp=spec["xp"])
-            with experiment(w.ws, spec["xp"]) as xp:
+            mode = spec.get("mode", "normal")
+            st.mode = mode
+            kw = {}
+            if mode != "normal":
+                from experimaestro.scheduler.workspace import RunMode
+
+                kw["run_mode"] = {"generate": RunMode.GENERATE_ONLY, "dry": RunMode.DRY_RUN}[mode]
+                k.count("probe:run-mode-%s" % mode)
+            k.log("xp-enter-call", xp=spec["xp"], mode=mode)
+            with experiment(w.ws, spec["xp"], **kw) as xp:
                 st.xp = xp
                 k.log("xp-entered", xp=spec["xp"])
                 for op in spec["plan"]:
